@@ -120,22 +120,19 @@ func (dss *dataStoreSet) getDb(index int, create bool) (ds *dataStore, valid boo
 	return
 }
 
-func (dss *dataStoreSet) flushDb(index int) {
+// the databases that exist right now, in index order
+func (dss *dataStoreSet) allDbs() (list []*dataStore) {
 	simBeforeLock(&dss.mu, "dss.mu")
 	dss.mu.Lock()
 	defer simAfterUnlock(&dss.mu, "dss.mu")
 	defer dss.mu.Unlock()
 
-	delete(dss.dbs, index)
-}
-
-func (dss *dataStoreSet) flushAll() {
-	simBeforeLock(&dss.mu, "dss.mu")
-	dss.mu.Lock()
-	defer simAfterUnlock(&dss.mu, "dss.mu")
-	defer dss.mu.Unlock()
-
-	dss.dbs = map[int]*dataStore{}
+	for index := 0; index < 16; index++ {
+		if ds, exists := dss.dbs[index]; exists {
+			list = append(list, ds)
+		}
+	}
+	return
 }
 
 func (dss *dataStoreSet) getUser(userName string) (dsu *dataStoreUser, exists bool) {
